@@ -379,4 +379,15 @@ def nestedArms : List Arm → Bool
 
 def nested (bs : Cfg) : Bool := nestedArms (arms bs)
 
+/-! ### MIR has no back edges: every branch target and every merge block lies after the block that names it -/
+
+def Ins.forward (bi : Nat) : Ins → Bool
+  | .jmpIf _ t e _ => decide (bi < t) && decide (bi < e)
+  | .jmp off => decide (bi < wrapUsize (bi + off))
+  | .switch _ cases d _ => cases.all (fun c => decide (bi < c.2)) && d.all (fun db => decide (bi < db))
+  | _ => true
+
+def forward (bs : Cfg) : Bool :=
+  allIdx (fun bi b => b.all (Ins.forward bi)) 0 bs && (arms bs).all (fun a => decide (a.stop ≤ a.merge))
+
 end Mimium.RustGen
